@@ -182,13 +182,13 @@ class BaseSession(SessionInterface, Generic[MessageT]):
                 uids.append(msg.uid)
                 if dest_selected:
                     dest_selected.session_flags.add_recent(msg.uid)
+            updates = await self._load_updates(selected, mbx)
         except BaseException:
             # MULTIAPPEND is all-or-nothing (RFC 3502)
             if uids:
                 await shield(mbx.delete(uids))
             raise
-        return (AppendUid(mbx.uid_validity, uids),
-                await self._load_updates(selected, mbx))
+        return AppendUid(mbx.uid_validity, uids), updates
 
     async def select_mailbox(self, name: str, readonly: bool = False) \
             -> tuple[MailboxSnapshot, SelectedMailbox]:
